@@ -66,6 +66,8 @@ def _run(d, out_dir, mode):
 
 
 def _shows_something(r, mode):
+    if r['exit'] != 0:
+        return False            # a failing run shows nothing decodable; the failure itself is judged (ExitZero)
     t = r['text'].strip()
     if mode == 'count':
         try:
@@ -112,11 +114,21 @@ def run_case(case):
     for mode in MODES:
         dirrun.write_dir(d, files)
         b = _run(d, outd, mode)
+        dirrun.write_dir(alone, [])
+        e0 = _run(alone, outd, mode)
         use, jrec = [], []
         for nm, data, kind in junk:
             dirrun.write_dir(alone, [(nm, data)])
             a = _run(alone, outd, mode)
             dec = _shows_something(a, mode)
+            if not dec:
+                # a directory holding only this junk file: same output as the empty directory, exit 0
+                recs.append(dict(family='C09', shape_ok=True, mode='json' if mode == 'json' else mode,
+                                 junk=[dict(kind=kind, decodable_alone=False, used=True)], njunk=1, nested=False,
+                                 base=dict(exit=e0['exit'], out=e0['out'], wellformed=e0['wellformed'], files=[]),
+                                 **{'with': dict(exit=a['exit'], out=a['out'], wellformed=a['wellformed'], files=[],
+                                                 extra_files=sorted(a['files']), stderr_empty=a['stderr_empty'])},
+                                 shows=True, sample_out=a['text'][:200]))
             if not dec:
                 use.append((nm, data))
             jrec.append(dict(kind=kind, decodable_alone=False if not dec else False, used=not dec))
@@ -149,3 +161,8 @@ def fingerprint(r, clauses):
 def sample(r):
     return dict(mode=r['mode'], junk=[j['kind'] for j in r['junk'] if j['used']], nested_dirs=r['nested'],
                 exit=r['with']['exit'], stdout_unchanged=r['with']['out'] == r['base']['out'])
+
+
+def corrupt(r):
+    r['with']['out'] = 'corrupted'
+    return r
